@@ -954,6 +954,7 @@ def check(facts, rep, tier, cfg):
     check_r6_callsite_codes(facts, rep)
     check_r7_reads_on_callers_reader(facts, rep, crate)
     check_r8_no_normalising_conversion(facts, rep, crate)
+    check_r9_every_request_answered(facts, rep)
     rep.rule("C18.S7", "no new process-wide mutable state (static cell / lock / once-cell) in the files this property is anchored in")
     import whomay
     whomay.check_new_statics(facts, rep, "C18.S7", "C18")
@@ -1025,6 +1026,82 @@ def check_r8_no_normalising_conversion(facts, rep, crate):
     if not bad:
         rep.ok(rid, "no-normalising-conversion", "", "%d calls inspected in penguin-socks, none normalises protocol data" % n, nontrivial=False)
     rep.floor(rid, "calls inspected in penguin-socks", n, 40)
+
+
+def check_r9_every_request_answered(facts, rep):
+    """Once a SOCKS request has been read, what the handler does next is decided by the request - and every such decision ends in a
+    reply: no value of the command / address / port makes the handler return without having called a reply writer (directly or through
+    handle_connect / handle_associate)."""
+    rid = "C18.R9"
+    rep.rule(rid, "every request that could be read is answered: in the SOCKS4 / SOCKS5 handlers no branch on the request's contents (command, "
+                  "address, port) leads to a return that has not passed a reply writer - an unsupported command gets its failure reply "
+                  "(5B / 07), not a silent close")
+    crate = facts.crate("rusty_penguin_lib")
+    if crate is None or "client" not in crate.features:
+        return
+    REPLY = ("write_response", "write_response_unspecified", "handle_connect", "handle_associate")
+    n = 0
+    for b in crate.bodies:
+        if "/socks.rs" not in b.file or "::tests::" in b.path:
+            continue
+        rr = [bi for bi, t in b.calls() if callee(t) and callee(t)["name"] == "read_request"]
+        if not rr:
+            continue
+        n += 1
+        rep.analysed(b)
+        tr = Tracer(facts, b)
+        replies = set(bi for bi, t in b.calls() if callee(t) and callee(t)["name"] in REPLY)
+        rets = set(r for r in range(len(b.blocks)) if b.term(r)["k"] == "Return")
+        where = "%s (%s)" % (loc_str(b.term(rr[0])["loc"]), b.path)
+        bad = None
+        gcache = {}
+        for gb in b.reachable_from(rr[0]):
+            if b.term(gb)["k"] != "SwitchInt":
+                continue
+            g = guard_at(facts, b, tr, gb)
+            if g is None:
+                continue
+            calls_ = [x for x in walk(g.pred) if x.kind == "call"]
+            if not any(x[6] == "read_request" for x in calls_):
+                continue
+            if any(b.dominates(rp, gb) for rp in replies):
+                continue            # already past a reply
+            p_ = strip(g.pred)
+            # the read itself failing (its own Poll / Result / ControlFlow) is not a decision on the request's contents
+            direct = [x[6] for x in calls_ if x[6] not in ("poll", "into_future", "new_unchecked", "get_context", "branch", "read_request", "deref", "as_mut")]
+            if g.kind == "discr" and not direct and (g.adt or "").endswith(("Poll", "ControlFlow", "Result")):
+                continue
+            for succ in set(b.succ[gb]):
+                if succ in replies:
+                    continue
+                # walk from this edge; failure edges of steps that do not depend on the request (no room on the request queue, I/O
+                # errors of the writers) are infrastructure failures, not decisions on the request
+                seen_, st_ = set(), [succ]
+                hit = False
+                while st_ and not hit:
+                    x = st_.pop()
+                    if x in seen_ or x in replies:
+                        continue
+                    seen_.add(x)
+                    if x in rets:
+                        hit = True
+                        break
+                    nxt = list(b.succ[x])
+                    if b.term(x)["k"] == "SwitchInt":
+                        g2 = gcache.get(x) if x in gcache else gcache.setdefault(x, guard_at(facts, b, tr, x))
+                        if g2 is not None and g2.kind == "discr" and not any(y.kind == "call" and y[6] == "read_request" for y in walk(g2.pred)):
+                            nxt = [s2 for s2, v2 in g2.edges if v2 not in ("Break", "Err")]
+                    st_.extend(nxt)
+                if hit:
+                    bad = gb
+        key = "request-answered/%s" % b.path.split("::{")[0]
+        if bad is not None:
+            rep.bad(rid, key, "%s (%s)" % (loc_str(b.term(bad)["loc"]), b.path),
+                    "for some request contents the handler returns without any reply writer having been called: the client that sent a "
+                    "well-formed request (e.g. with an unsupported command byte) sees the connection close instead of the failure reply")
+        else:
+            rep.ok(rid, key, where, "every branch on the request ends in a reply")
+    rep.floor(rid, "SOCKS request handlers", n, 2)
 
 
 def check_r6_callsite_codes(facts, rep):
